@@ -308,26 +308,72 @@ class ArgLedger(object):
     """wraps the functions in the `petl` namespace (the names the checks call through) so that every call from the harness is
     counted together with the keyword arguments it passed; calls inside petl bind the original functions and are not counted"""
 
+    TABLE_PARAMS = ('table', 'tables', 'a', 'b', 'left', 'right', 'source', 'dbo', 'inner', 'tbl')
+
     def __init__(self):
         self.calls = {}
         self.kwargs = {}
+        self.shapes = {}
         self._saved = {}
+
+    @staticmethod
+    def shape(v, depth=0):
+        """a coarse class of an argument value: which *form* of the argument was used (a name, an index, index 0, a negative
+        number, a one-element sequence, a callable, ...), not its content"""
+        if v is None:
+            return 'None'
+        if isinstance(v, bool):
+            return 'bool'
+        if isinstance(v, int):
+            return 'int:0' if v == 0 else ('int:neg' if v < 0 else 'int:pos')
+        if isinstance(v, float):
+            return 'float'
+        if isinstance(v, str):
+            return 'str' if v else 'str:empty'
+        if isinstance(v, bytes):
+            return 'bytes'
+        if isinstance(v, (list, tuple)):
+            n = len(v)
+            kind = type(v).__name__ if type(v) in (list, tuple) else 'seq'
+            if depth >= 1 or n == 0:
+                return '%s[%s]' % (kind, '0' if n == 0 else ('1' if n == 1 else '2+'))
+            inner = sorted({ArgLedger.shape(x, depth + 1) for x in v[:6]})
+            return '%s[%s](%s)' % (kind, '1' if n == 1 else '2+', '|'.join(inner))
+        if isinstance(v, dict):
+            return 'dict' if v else 'dict:empty'
+        if isinstance(v, (set, frozenset)):
+            return 'set'
+        if callable(v):
+            return 'callable'
+        return type(v).__name__
 
     def install(self):
         import inspect
         import petl
-        calls, kwargs = self.calls, self.kwargs
+        calls, kwargs, shapes = self.calls, self.kwargs, self.shapes
+        shape, skip = self.shape, self.TABLE_PARAMS
         for name, fn in list(vars(petl).items()):
             if name.startswith('_') or not inspect.isfunction(fn) or not getattr(fn, '__module__', '').startswith('petl.'):
                 continue
+            code = getattr(fn, '__code__', None)
+            pnames = code.co_varnames[:code.co_argcount] if code is not None else ()
 
-            def mk(name, fn):
+            def mk(name, fn, pnames=pnames):
                 def wrapper(*a, **k):
                     calls[name] = calls.get(name, 0) + 1
                     if k:
                         d = kwargs.setdefault(name, {})
                         for kk in k:
                             d[kk] = d.get(kk, 0) + 1
+                    sh = shapes.setdefault(name, {})
+                    for i, v in enumerate(a):
+                        pn = pnames[i] if i < len(pnames) else '*%d' % (i - len(pnames))
+                        if i == 0 or pn in skip:
+                            continue
+                        sh.setdefault(pn, set()).add(shape(v))
+                    for kk, v in k.items():
+                        if kk not in skip:
+                            sh.setdefault(kk, set()).add(shape(v))
                     return fn(*a, **k)
                 wrapper.__name__ = getattr(fn, '__name__', name)
                 wrapper.__doc__ = fn.__doc__
@@ -343,7 +389,8 @@ class ArgLedger(object):
         self._saved = {}
 
     def dump(self):
-        return {'calls': dict(self.calls), 'kwargs': {k: dict(v) for k, v in self.kwargs.items()}}
+        return {'calls': dict(self.calls), 'kwargs': {k: dict(v) for k, v in self.kwargs.items()},
+                'shapes': {fn: {p: sorted(v) for p, v in d.items()} for fn, d in self.shapes.items()}}
 
 
 # ---------------------------------------------------------------------------
